@@ -24,6 +24,7 @@ type c10Op struct {
 	Half bool   `json:"half,omitempty"` // exercises the floor
 	N    int    `json:"n,omitempty"`    // tick: number of ticks
 	NW   bool   `json:"nw,omitempty"`   // do not wait for the wheel to become quiescent after this call
+	Pan  []int  `json:"pan,omitempty"`  // drain: the drain function panics for these keys (after recording the hand-over)
 }
 
 // c10Expand turns bulk ops (bset/bmove/bremove over keys Key..Key+N-1) into single ops.
@@ -247,12 +248,26 @@ func c10Interp(t *testing.T, c c10Case) (v kit.Verdict) {
 			case "drain":
 				var dm sync.Mutex
 				var got []c10Fire
+				drainPanicked := false
 				err := w.Drain(func(k, val any) {
 					dm.Lock()
 					got = append(got, c10Fire{key: k.(int), val: val.(int), drained: true})
 					dm.Unlock()
+					for _, pk := range o.Pan {
+						if pk == k.(int) {
+							dm.Lock()
+							drainPanicked = true
+							dm.Unlock()
+							panic(fmt.Sprintf("c10: drain function panics for key %d", pk))
+						}
+					}
 				})
 				kit.Wait()
+				dm.Lock()
+				if drainPanicked {
+					classes["drain-fn-panics"] = true
+				}
+				dm.Unlock()
 				if stopped {
 					if err != ErrClosed {
 						fail = fmt.Sprintf("%s: after Stop got %v, want ErrClosed", what, err)
@@ -347,6 +362,15 @@ func c10Gen(rt *rapid.T) c10Case {
 	c := c10Case{Slots: rapid.IntRange(1, 12).Draw(rt, "slots")}
 	nkeys := rapid.IntRange(1, 3).Draw(rt, "nkeys")
 	n := rapid.IntRange(1, 30).Draw(rt, "nops")
+	wide := false
+	if rapid.IntRange(0, 5).Draw(rt, "wide") == 0 { // many keys pending at once (drain uses a pool of 8 workers)
+		nkeys = rapid.IntRange(9, 16).Draw(rt, "widekeys")
+		n = rapid.IntRange(5, 40).Draw(rt, "widenops")
+		wide = true
+		for k := 0; k < nkeys; k++ { // everything pending with long delays
+			c.Ops = append(c.Ops, c10Op{Kind: "set", Key: k, Val: k, M: 2*c.Slots + 1 + rapid.IntRange(0, c.Slots).Draw(rt, "widem")})
+		}
+	}
 	maxM := 3*c.Slots + 1
 	stopped, drained := false, false
 	for i := 0; i < n; i++ {
@@ -358,7 +382,7 @@ func c10Gen(rt *rapid.T) c10Case {
 			}
 		} else {
 			kinds = append(kinds, "badset", "badmove", "badremove")
-			if i > n/2 {
+			if i > n/2 || wide {
 				kinds = append(kinds, "drain", "stop")
 			}
 		}
@@ -385,6 +409,18 @@ func c10Gen(rt *rapid.T) c10Case {
 			o.M = rapid.SampledFrom([]int{0, -1, 1}).Draw(rt, "m") // 1 => nil key
 		case "drain":
 			drained = true
+			if wide && rapid.Bool().Draw(rt, "drainpanicsmost") {
+				for k := 0; k < nkeys; k++ {
+					if rapid.IntRange(0, 9).Draw(rt, "pk") < 8 {
+						o.Pan = append(o.Pan, k)
+					}
+				}
+			} else if rapid.IntRange(0, 2).Draw(rt, "drainpanics") == 0 {
+				np := rapid.IntRange(1, nkeys).Draw(rt, "npan")
+				for j := 0; j < np; j++ {
+					o.Pan = append(o.Pan, rapid.IntRange(0, nkeys-1).Draw(rt, "pankey"))
+				}
+			}
 		case "stop":
 			stopped = true
 		}
